@@ -46,6 +46,14 @@ MODPATH = {
 # line rewrites (exactly one match required): free_space.rs is compiled against a bounded
 # sorted-array model of the BTreeMap API subset it uses (std's B-tree is out of solver reach).
 REWRITES = {
+    # CRC implementation selection: ask the harness module first (software kernel / recorder / havoc).
+    # Source-level (not kani::stub) so that it also holds when counterexamples are replayed natively.
+    "src/storage/seq_token.rs": [
+        (
+            r"^fn select_crc32c\(\) -> Crc32c \{[ \t]*$",
+            "fn select_crc32c() -> Crc32c {\n    #[cfg(kani)]\n    if let Some(f) = verif_kani::crc_override() {\n        return f;\n    }",
+        )
+    ],
     "src/storage/free_space.rs": [
         (
             r"^use std::collections::BTreeMap;[ \t]*$",
@@ -136,8 +144,8 @@ def run(src_root, target_dir, fqns, jobs=4, timeout_s=900, mem_gb=24, extra=None
     if not os.path.exists(out_json):
         return results, False, raw, wall
     data = json.load(open(out_json))
-    stats = {c["harness_id"]: c.get("cbmc_stats", {}) for c in data.get("cbmc", [])}
-    pdet = {c["harness_id"]: c.get("property_details", {}) for c in data.get("property_details", [])}
+    stats = {c["harness_id"]: (c.get("cbmc_stats") or {}) for c in data.get("cbmc", [])}
+    pdet = {c["harness_id"]: (c.get("property_details") or {}) for c in data.get("property_details", [])}
     errs = {c["harness_id"]: c for c in data.get("error_details", [])}
     for r in data.get("verification_results", {}).get("results", []):
         hid = r["harness_id"]
